@@ -397,6 +397,13 @@ def repo_fixture_programs(pid, rng, rows=5):
         p.steps.append({'op': 'script', 'module': f'tests.dlis_files_for_testing.{mod}', 'func': func,
                         'args': [{'t': 'path', 'v': 'out.dlis'}, {'t': 'arrays', 'v': m}]})
         progs.append(p.build())
+    # the repository's own tests that write files, run unmodified by pytest with the public API wrapped by the recorder
+    # (files above 60 kB are not handed to TLC; the same builders are run with short data above)
+    p = Prog(f'{pid}-repo-pytest', {'kind': 'repofixture', 'module': 'pytest'})
+    p.steps.append({'op': 'script', 'pytest': ['src/tests/test_file/test_dlis_creation.py', 'src/tests/test_file/test_double_frame.py',
+                                               'src/tests/test_file/test_channels_in_file.py', 'src/tests/test_file/test_origin_options.py'],
+                    'max_file': 60000})
+    progs.append(p.build())
     p = Prog(f'{pid}-repo-dlis_from_dict', {'kind': 'repofixture', 'module': 'dlis_from_dict'})
     m = {'depth': p.array(np.arange(6, dtype='float64')), 'rpm': p.array(rand_array(rng, 'int32', 6)), 'amp': p.array(rand_array(rng, 'float32', 6, 4))}
     p.steps.append({'op': 'script', 'module': 'tests.dlis_files_for_testing.dlis_from_dict', 'func': 'write_dlis_from_dict',
